@@ -183,6 +183,37 @@ func c05GenClaimSeq(r *Rng) c05ClaimSeqScn {
 		}
 		s.Steps = append(s.Steps, st)
 	}
+	// a claim that IS ready, bound to its XR, whose XR then loses its whole status (the XR controller
+	// - or a restore - left `status: {}`) or all but user fields: the server-side syncer copies the
+	// XR's status into the claim and re-sets the claim's own conditions on it; the claim must be told
+	// to wait, whatever the syncer did to the objects it holds
+	if r.Chance(1, 5) {
+		s.SSA = true
+		c := &s.Claims[0]
+		c.XR = 0
+		self := c05SelfRef(*c)
+		s.XRs[0].Present, s.XRs[0].Ref = true, &self
+		if len(s.XRs[0].View.Conds) == 0 {
+			s.XRs[0].View.Conds = append(s.XRs[0].View.Conds, c05Cond{Type: "Ready", Status: "True", Reason: "XRAvail"})
+		}
+		old := []c05Cond{{Type: "Ready", Status: "True", Reason: "Available"}, {Type: "Synced", Status: "True", Reason: "ReconcileSuccess"}}
+		for _, o := range c.Old {
+			if o.Type != "Ready" && o.Type != "Synced" {
+				old = append(old, o)
+			}
+		}
+		c.Old = old
+		k := 0
+		if r.Chance(1, 3) {
+			k = r.Intn(len(s.Steps))
+		}
+		empty := c05View{Conds: []c05Cond{}, ClaimTypes: []string{}}
+		s.Steps[k] = c05CStep{Claim: 0, Set: &empty}
+		if k+1 < len(s.Steps) && r.Bool() {
+			// and once more, nothing having changed
+			s.Steps[k+1] = c05CStep{Claim: 0}
+		}
+	}
 	return s
 }
 
@@ -424,6 +455,17 @@ func c05RunClaimSeq(s c05ClaimSeqScn) (c05SeqObs, []Mon) {
 		old := before[cm.NS+"/"+cm.Name]
 		self := &reference.Claim{APIVersion: "example.org/v1", Kind: c05ClaimGVK.Kind, Namespace: cm.NS, Name: cm.Name}
 		becameReady := after["Ready"].Status == "True" && (old["Ready"].Status != "True" || after["Ready"].Reason != old["Ready"].Reason)
+		// ... or REPORTED Ready=True once more: its own status update took effect with Synced=True
+		// (so it went past Sync: the exits left are Waiting and Available) and Ready=True - a claim that
+		// was ready already must be judged again by every reconcile, against the XR it was handed
+		reportedReady := finalWrite && after["Ready"].Status == "True" && after["Synced"].Status == "True" && after["Synced"].Reason == "ReconcileSuccess"
+		if reportedReady && !becameReady && (len(seen) == 0 || seen[len(seen)-1].Ready != "True") {
+			last := "nothing"
+			if len(seen) > 0 {
+				last = "Ready=" + seen[len(seen)-1].Ready
+			}
+			mon("C05:claim-ready-without-xr-ready", fmt.Sprintf("step %d: claim %s/%s was reported Ready=True again although the last state of XR %q this reconcile was handed is %s", i, cm.NS, cm.Name, xname, last))
+		}
 		if becameReady {
 			if len(seen) == 0 || seen[len(seen)-1].Ready != "True" {
 				last := "nothing"
